@@ -27,6 +27,14 @@ abbrev initHeap (linkFn : LinkFn) (inputs : List Input) : List Live :=
 abbrev initErr (linkFn : LinkFn) (inputs : List Input) : Option Nat :=
   (initHeads (linksOf linkFn inputs) (srcsOf inputs)).2
 
+/-- the laws assumed of the link table (sam.MergeHeaders, property C07): reference `x` of source `i` is
+linked to a reference of the merged header with the same name.  For a single source (`links = none`)
+the merged header is the source header. -/
+def LinksOK (srcRefs : List (List Name)) (merged : List Name) (links : Option LinkFn) : Prop :=
+  ∀ (i : Nat) (names : List Name), srcRefs[i]? = some names → ∀ x : Nat, x < names.length →
+    (match links with | none => x | some l => l i x) < merged.length ∧
+    merged[(match links with | none => x | some l => l i x)]? = names[x]?
+
 theorem enumFrom_ge {α : Type} : ∀ (k : Nat) (l : List α) (p : Nat × α), p ∈ enumFrom k l → k ≤ p.1
   | _, [], _, h => by cases h
   | k, a :: as, p, h => by
